@@ -14,10 +14,12 @@
 //           a<id>  val r = co_await a plain awaitable (await_transform round trip)
 //           e<id>  co_await a plain awaitable whose await_resume throws err_exc{id}
 //           q0     co_await stop_if_requested()
+//           z0     co_await async_trace_sender{}: logs "Z n=<entries> root=<the chain reaches the outer receiver>"
 //           d0     val r = co_await done_as_optional(leaf) style: co_await just_done() | done_as_optional
 #include <vf/det_main.hpp>
 
 #include <unifex/connect_awaitable.hpp>
+#include <unifex/async_trace.hpp>
 #include <unifex/at_coroutine_exit.hpp>
 #include <unifex/just.hpp>
 #include <unifex/let_value.hpp>
@@ -158,6 +160,18 @@ unifex::task<vf::val> run_plan(int pid) {
       case 'e': {
         vf::val r = co_await plain_awaitable{a, true};
         vf::ev("B %d %d %d v %d tag=%d", pid, inst, i, r.id, vf::G.cur_tag);
+        break;
+      }
+      case 'z': {
+        auto entries = co_await unifex::async_trace_sender{};
+        int root = 0;
+        for (auto& e : entries) {
+          auto it = vf::G.live.find(e.continuation.address());
+          if (it != vf::G.live.end() && it->second.kind == vf::K_RCVR)
+            root = 1;
+        }
+        vf::ev("Z n=%zu root=%d", entries.size(), root);
+        vf::ev("B %d %d %d v - tag=%d", pid, inst, i, vf::G.cur_tag);
         break;
       }
       case 'q':
